@@ -215,7 +215,17 @@ def handleScan (ds : DState) (sc : ScanCase) : DState × Json :=
             let m05 := if fatalHere || seen'.lookup ob.name == some (-1, -1) then [] else
               (Spec.C05.badFromZero ctx (seen'.lookup ob.name) ob.delta).flatMap (fun t =>
                 ["C05|" ++ t] ++ (if ctx.view.nodes.any (·.unschedulable) then ["C09|cordoned-node-in-view:" ++ t] else []))
-            (monitors ctx ob.j (fatalHere && sc.obs.outcome == "fatal:not-in-group") ++ monitorsWant ctx ob.delta ob.j (fatalHere || gone) stillTainted ++ m05).map (fun m => match m.splitOn "|" with
+            -- "enabling dry mode on one group does not change another group's actions": a live group, configured next to a
+            -- dry one, that decides to add capacity and then writes nothing, or that keeps the book dry mode keeps instead of
+            -- tainting, is being run as if it were dry
+            let liveNextToDry := !ctx.dry && ds.ctl.cfgs.any (fun c' => c'.name != ob.name && c'.dryMode)
+            let mw := monitorsWant ctx ob.delta ob.j (fatalHere || gone) stillTainted
+            let m11 := if !liveNextToDry then [] else
+              (mw.filter (fun m => m.startsWith "C07|remainder-not-requested")).map (fun m => "C11|a live group configured next to a dry one acts as if it were dry: " ++ (m.drop 4).toString) ++
+              (match sc.obs.states.find? (fun s => s.name == ob.name) with
+               | some s => if s.taintTracker.isEmpty then [] else ["C11|a live group configured next to a dry one keeps dry mode's list of would-be-tainted nodes: " ++ toString s.taintTracker]
+               | none => [])
+            (monitors ctx ob.j (fatalHere && sc.obs.outcome == "fatal:not-in-group") ++ mw ++ m11 ++ m05).map (fun m => match m.splitOn "|" with
             | [p, d] => p ++ ":" ++ ob.name ++ ":" ++ d
             | _ => m ++ ":" ++ ob.name))
     -- which oracles were applicable to this scan (probed with an observation they would have to reject):
